@@ -1,10 +1,10 @@
 ---- MODULE DVAdvertMC ----
 EXTENDS DVAdvert
-CONSTANTS MaxChanges, MaxTime
+CONSTANTS MaxChanges, MaxTime, MCFaces
 MNext == \/ (pcont < MaxChanges /\ PChange)
          \/ PBeat
          \/ \E s \in fetches : PReply(s)
-         \/ \E s \in syncs : RSync(s)
+         \/ \E s \in syncs, f \in MCFaces, a \in (IF Cardinality(MCFaces) > 1 THEN BOOLEAN ELSE {TRUE}) : RSync(s, f, a)
          \/ \E s \in fq : RFetch(s)
          \/ \E d \in datas : RData(d.seq, d.c, d.t)
          \/ \E g \in DOMAIN parked : RRib(g)
@@ -13,14 +13,14 @@ MNext == \/ (pcont < MaxChanges /\ PChange)
          \/ (now < MaxTime /\ Tick)
 MSpec == Init /\ [][MNext]_vars
 \* liveness: changes stop, time stops, and the protocol steps that are enabled keep being taken
-Fair == /\ WF_vars(PBeat) /\ \A s \in 1..MaxChanges : WF_vars(RSync(s)) /\ WF_vars(RFetch(s)) /\ WF_vars(PReply(s))
+Fair == /\ WF_vars(PBeat) /\ \A s \in 1..MaxChanges : (\A f \in MCFaces : WF_vars(RSync(s, f, TRUE))) /\ WF_vars(RFetch(s)) /\ WF_vars(PReply(s))
         /\ \A s \in 1..MaxChanges, c \in 1..MaxChanges, t \in 0..MaxTime : WF_vars(RData(s, c, t))
         /\ \A s \in 1..MaxChanges : WF_vars(RTimeout(s))
         /\ \A g \in 1..(MaxChanges + MaxTime + 2) : WF_vars(RRib(g))
-LNext == \/ (pcont < MaxChanges /\ PChange) \/ PBeat \/ (\E s \in fetches : PReply(s)) \/ (\E s \in syncs : RSync(s)) \/ (\E s \in fq : RFetch(s))
+LNext == \/ (pcont < MaxChanges /\ PChange) \/ PBeat \/ (\E s \in fetches : PReply(s)) \/ (\E s \in syncs, f \in MCFaces : RSync(s, f, TRUE)) \/ (\E s \in fq : RFetch(s))
          \/ (\E d \in datas : RData(d.seq, d.c, d.t)) \/ (\E g \in DOMAIN parked : RRib(g)) \/ (\E s \in DOMAIN pend : RTimeout(s))
 LSpec == Init /\ [][LNext]_vars /\ Fair
 Converges == <>[](pcont = MaxChanges => UpToDate)
-MView == <<now, pseq, pcont, syncs, fetches, datas, cur, gens, aseq, objadv, parked, applied, seen, pend, fq>>
+MView == <<now, pseq, pcont, syncs, fetches, datas, cur, gens, aseq, objadv, parked, applied, seen, pend, fq, nface, nactive, nroutes>>
 GenBound == gens <= 3 /\ \A g \in DOMAIN parked : parked[g] <= 2
 ====
